@@ -1058,4 +1058,117 @@ def boundaryCases : List (Vals × Verdict) := [
 
 end HRaft
 
+/-! ## Environment-variable DECODE KINDS (kelseyhightower/envconfig v1.4.0, `processField`)
+
+`ApplyEnvVars` of a section is `toJSONConfig; envconfig.Process(prefix, jcfg); applyJSONConfig`. `Process` decodes the TEXT of a
+variable by the Go type of the JSON-struct field: string as is, bool by `strconv.ParseBool`, ints by `ParseInt(text, 0, bits)`
+(base 0, NOT base 10: `0x10`, `010`, `1_000` are accepted - the model answers `undecided` on those), slices by splitting on `,`
+(blank text = empty slice), maps as `k:v` pairs separated by `,` (a pair without exactly one `:` refuses the whole variable).
+Durations are `string` fields of the JSON structs: envconfig passes the text on and `config.ParseDurations` (modelled as `DurJ`)
+decides. The kind of every field is regenerated from the sources (`Gen.envKinds`). Texts are `List Char`. -/
+namespace EnvK
+
+inductive Kind | str | int (bits : Nat) | uint (bits : Nat) | bool | float | strList | floatList | strMap | strListMap | other
+deriving DecidableEq, Repr
+
+inductive Val
+  | str (s : List Char) | int (i : Int) | bool (b : Bool) | strs (l : List (List Char))
+  | pairs (l : List (List Char × List Char))
+deriving DecidableEq
+
+/-- `refuse`: `Process` returns an error (the section's `ApplyEnvVars` must return it and change nothing);
+`undecided`: a form the model does not decide (base prefixes, floats) -/
+inductive Res | ok (v : Val) | refuse | undecided
+deriving DecidableEq
+
+/-- `strings.Split(text, string c)` -/
+def splitC (c : Char) : List Char → List (List Char)
+  | [] => [[]]
+  | x :: xs =>
+    if x = c then [] :: splitC c xs
+    else match splitC c xs with
+      | [] => [[x]]
+      | h :: t => (x :: h) :: t
+
+/-- `strings.Join(parts, string c)` -/
+def joinC (c : Char) : List (List Char) → List Char
+  | [] => []
+  | [p] => p
+  | p :: q :: r => p ++ c :: joinC c (q :: r)
+
+/-- `len(strings.TrimSpace(text)) == 0` (ASCII white space) -/
+def isBlank (s : List Char) : Bool := s.all (fun c => c = ' ' || c = '\t' || c = '\n' || c = '\r')
+
+def trues : List (List Char) := ["1", "t", "T", "TRUE", "true", "True"].map String.toList
+def falses : List (List Char) := ["0", "f", "F", "FALSE", "false", "False"].map String.toList
+
+/-- `strconv.ParseBool` -/
+def decBool (s : List Char) : Res :=
+  if s ∈ trues then .ok (.bool true) else if s ∈ falses then .ok (.bool false) else .refuse
+
+def natOfDigits (s : List Char) : Nat := s.foldl (fun a c => a * 10 + (c.toNat - 48)) 0
+
+/-- `strconv.ParseInt(text, 0, bits)` / `ParseUint`: plain decimal forms are decided; a leading `0` followed by more, or an
+underscore, is a base-0 form (`undecided`); anything else is refused; out of range is refused -/
+def decInt (signed : Bool) (bits : Nat) (s : List Char) : Res :=
+  let (neg, body) := match s with
+    | '-' :: r => (true, r)
+    | '+' :: r => (false, r)
+    | r => (false, r)
+  if body.isEmpty then .refuse
+  else if (neg || s.head? == some '+') && !signed then .refuse
+  else if body.all Char.isDigit then
+    if body.head? == some '0' && body.length > 1 then .undecided
+    else
+      let n := natOfDigits body
+      if signed then
+        if neg then (if n ≤ 2 ^ (bits - 1) then .ok (.int (- (n : Int))) else .refuse)
+        else (if n < 2 ^ (bits - 1) then .ok (.int n) else .refuse)
+      else (if n < 2 ^ bits then .ok (.int n) else .refuse)
+  else if body.head? == some '0' || body.contains '_' then .undecided
+  else .refuse
+
+/-- the `k:v` pairs of a map variable: every piece must split on `:` into exactly two parts -/
+def decPairs : List (List Char) → Option (List (List Char × List Char))
+  | [] => some []
+  | p :: ps =>
+    match splitC ':' p with
+    | [k, v] => (decPairs ps).map ((k, v) :: ·)
+    | _ => none
+
+def envDecode : Kind → List Char → Res
+  | .str, s => .ok (.str s)
+  | .bool, s => decBool s
+  | .int b, s => decInt true b s
+  | .uint b, s => decInt false b s
+  | .strList, s => if isBlank s then .ok (.strs []) else .ok (.strs (splitC ',' s))
+  | .strMap, s | .strListMap, s =>
+    if isBlank s then .ok (.pairs [])
+    else match decPairs (splitC ',' s) with
+      | some l => .ok (.pairs l)
+      | none => .refuse
+  | _, _ => .undecided
+
+/-- canonical text of a decoded value (what the harness prints for the saved JSON value) -/
+def Val.show : Val → String
+  | .str s => String.mk s
+  | .int i => toString i
+  | .bool b => toString b
+  | .strs l => String.mk (joinC ',' l)
+  | .pairs l => String.mk (joinC ',' (l.map fun (k, v) => k ++ ':' :: v))
+
+def Res.show : Res → String
+  | .ok v => "ok:" ++ v.show
+  | .refuse => "refuse"
+  | .undecided => "undecided"
+
+def parseKind : String → Kind
+  | "str" => .str | "bool" => .bool | "float" => .float | "strList" => .strList | "floatList" => .floatList
+  | "strMap" => .strMap | "strListMap" => .strListMap
+  | "int64" => .int 64 | "int32" => .int 32 | "uint64" => .uint 64 | "uint32" => .uint 32
+  | _ => .other
+
+end EnvK
+
+
 end CV.C15
